@@ -126,6 +126,49 @@ class Program:
         return v is not None and v.kind == 'const' and (v.args[1] or '').endswith('NIL_INDEX')
 
     # ---- call resolution -----------------------------------------------------------------------
+    def specialise(self, fn, consts):
+        """fn with the branches on the given parameters (1-based index -> integer value) decided: a copy whose
+        switches on those parameters are replaced by jumps, SSA rebuilt on the pruned graph"""
+        key = ('spec', fn.path, tuple(sorted(consts.items())))
+        if key in self._summ_cache:
+            return self._summ_cache[key]
+        from ssa import strip
+        b = fn.body
+        blocks = list(b.mir['blocks'])
+        changed = False
+        for blk, d in b.switch_discr.items():
+            d = strip(d)
+            neg = False
+            while d.kind == 'un' and d.args[0] == 'Not':
+                d = strip(d.args[1])
+                neg = not neg
+            if d.kind != 'param' or d.args[0] not in consts:
+                continue
+            val = int(consts[d.args[0]])
+            if neg:
+                val = 1 - val
+            t = blocks[blk]['term']
+            tb = t['otherwise']
+            for v, x in t['targets']:
+                if v == val:
+                    tb = x
+            nb = dict(blocks[blk])
+            nb['term'] = {'k': 'goto', 'target': tb, 'span': t.get('span')}
+            blocks[blk] = nb
+            changed = True
+        res = fn
+        if changed:
+            info = dict(fn.info)
+            mir = dict(b.mir)
+            mir['blocks'] = blocks
+            info['mir'] = mir
+            info['path'] = fn.path + '#' + ','.join('%d=%s' % kv for kv in sorted(consts.items()))
+            res = Fn(self, info)
+            res.name = fn.name
+            res.specialised_from = fn
+        self._summ_cache[key] = res
+        return res
+
     def resolve(self, call):
         """crate function a call Val resolves to, or None"""
         c = call.extra['callee']
